@@ -147,13 +147,20 @@ class Skeleton:
     def _ctor_alias(self, call):
         """`ctor = A if cond else B` ... `ctor(name, shape)`: the variable class is chosen at run time.  Returns the weakest candidate
         (a real / symmetric class if any branch can pick one) and the selecting condition, or None."""
-        if not isinstance(call.func, ast.Name):
-            return None
         by_attr = {"HermitianVariable": "picos.HermitianVariable", "SymmetricVariable": "picos.SymmetricVariable",
                    "RealVariable": "picos.RealVariable", "ComplexVariable": "picos.ComplexVariable"}
         cands, cond = [], None
-        for n in ast.walk(self.f.node):
-            if isinstance(n, ast.Assign) and len(n.targets) == 1 and isinstance(n.targets[0], ast.Name) and n.targets[0].id == call.func.id:
+        if isinstance(call.func, ast.IfExp):
+            # the conditional written in place: (A if cond else B)(name, shape)
+            srcs = [ast.Assign(targets=[ast.Name(id="_", ctx=ast.Store())], value=call.func)]
+            want = "_"
+        elif isinstance(call.func, ast.Name):
+            srcs = list(ast.walk(self.f.node))
+            want = call.func.id
+        else:
+            return None
+        for n in srcs:
+            if isinstance(n, ast.Assign) and len(n.targets) == 1 and isinstance(n.targets[0], ast.Name) and n.targets[0].id == want:
                 vals = [n.value.body, n.value.orelse] if isinstance(n.value, ast.IfExp) else [n.value]
                 if isinstance(n.value, ast.IfExp):
                     cond = unparse(n.value.test)
